@@ -543,7 +543,7 @@ def unsafe_inventory(ctx, report, rule, facts, config):
     # callers of the unsafe fns
     callers_ok = {
         A.WORLD + "::try_fetch_internal": lambda q: q.startswith("<" + A.METAITER) or q.startswith("<" + A.METAITERMUT),
-        A.BCS + "::create": lambda q: q == A.DB + "::add_batch",
+        A.BCS + "::create": lambda q: q in (A.DB + "::add_batch", A.DB + "::with_batch"),    # with_batch is add_batch chained (C04 / C18 `chain/with_batch`)
     }
     for q, okf in sorted(callers_ok.items()):
         b = facts.one(q)
